@@ -189,6 +189,10 @@ class Flow:
                 d = st['dst']['l']
                 if rv['k'] == 'use' and role.startswith('rv:use') and not rv['ops'][0]['p']['proj']:
                     work.append((d, mode, ty0, neg))
+                elif rv['k'] == 'use' and mode == 'try' and len(rv['ops'][0].get('p', {}).get('proj', [])) == 2 and \
+                        isinstance(rv['ops'][0]['p']['proj'][0], dict) and rv['ops'][0]['p']['proj'][0].get('name') == 'Continue':
+                    # payload of `x?` : a new value (e.g. the bool of Result<bool>, the Option of Result<Option<T>>)
+                    work.append((d, 'val', self.body.local_ty(d), False))
                 elif rv['k'] == 'use' and mode == 'poll':
                     # (_p as Ready).0  -> the awaited value
                     pr = rv['ops'][0]['p']['proj']
@@ -218,12 +222,16 @@ class Flow:
                 if neg and n in ('true', 'false'):
                     n = 'false' if n == 'true' else 'true'
                 res[n].add((bb, tgt, v))
+                for (b0, tg0) in self.cfg.threaded.get((bb, v), []):
+                    res[n].add((b0, tg0, None))
         rest = [n for v, n in names.items() if v not in listed]
         if len(rest) >= 1:
             for n in rest:
                 if neg and n in ('true', 'false'):
                     n = 'false' if n == 'true' else 'true'
                 res[n].add((bb, t['otherwise'], 'otherwise'))
+                for (b0, tg0) in self.cfg.threaded.get((bb, 'otherwise'), []):
+                    res[n].add((b0, tg0, None))
 
     def _variant_names(self, mode, ty0):
         optres = ty0.startswith('optres:')
@@ -478,8 +486,11 @@ def strip_refs(ty):
     return ty
 
 
-# variant tables of crate enums, filled by the loader (type string -> {discr: name})
-ENUMS = {}
+# variant tables of crate enums, filled by the loader (type string -> {discr: name}); std enums by hand
+ENUMS = {
+    "std::path::Component<'_>": {0: 'Prefix', 1: 'RootDir', 2: 'CurDir', 3: 'ParentDir', 4: 'Normal'},
+    'std::path::Component': {0: 'Prefix', 1: 'RootDir', 2: 'CurDir', 3: 'ParentDir', 4: 'Normal'},
+}
 
 
 def register_enums(facts):
@@ -503,12 +514,15 @@ def flow_of(body):
 class Interproc:
     """Return-provenance summaries of crate-local functions (for PROV across calls)."""
 
-    def __init__(self, facts):
+    def __init__(self, facts, opaque=()):
         self.facts = facts
+        self.opaque = set(opaque)
         self._cache = {}
         self._busy = set()
 
     def return_summary(self, path, depth):
+        if path in self.opaque:
+            return None
         b = self.facts.bodies.get(path)
         if b is None or b.kind != 'fn':
             return None
